@@ -327,6 +327,9 @@ func StatementProcessor(gs *gripql.GraphStatement, db gdbi.GraphInterface, ps *p
 		return &Path{stmt.Path.AsSlice()}, nil
 
 	case *gripql.GraphStatement_Unwind:
+		if ps.LastType != gdbi.VertexData && ps.LastType != gdbi.EdgeData {
+			return nil, fmt.Errorf(`"unwind" statement is only valid for edge or vertex types not: %s`, ps.LastType.String())
+		}
 		return &Unwind{stmt.Unwind}, nil
 
 	case *gripql.GraphStatement_Fields:
